@@ -731,7 +731,9 @@ impl<'a> Gen<'a> {
                 continue;
             }
             keys.push(key.clone());
-            items.push(format!("{}:{}", json_str(&key), self.lit(k, depth)));
+            // mixed objects: half of the members are "empty-ish" values (null, false, 0, "", [], {})
+            let v = if k == Any && self.tape.chance(1, 2) { self.tape.pick_s(&["null", "null", "false", "0", "\"\"", "[]", "{}", "true"]).to_string() } else { self.lit(k, depth) };
+            items.push(format!("{}:{}", json_str(&key), v));
         }
         format!("{{{}}}", items.join(","))
     }
@@ -778,8 +780,13 @@ impl<'a> Gen<'a> {
             ArrArr => self.list_of(ArrNum, d),
             ArrNas => self.list_of(Nas, d),
             Obj => {
-                let k2 = *self.tape.pick(CONCRETE_OBJ);
-                self.lit(k2, depth)
+                if self.tape.chance(1, 2) {
+                    // members of mixed types incl. null, false and nested empties
+                    self.obj_of(Any, d)
+                } else {
+                    let k2 = *self.tape.pick(CONCRETE_OBJ);
+                    self.lit(k2, depth)
+                }
             }
             ObjNum => self.obj_of(Num, d),
             ObjStr => self.obj_of(Str, d),
@@ -1023,7 +1030,8 @@ impl<'a> Gen<'a> {
         }
         if k0 == Arr {
             k0 = *self.tape.pick(CONCRETE_ARR);
-        } else if k0 == Obj {
+        } else if k0 == Obj && !self.tape.chance(1, 3) {
+            // (one time in three the object stays generic: members of mixed types incl. null)
             k0 = *self.tape.pick(CONCRETE_OBJ);
         }
         let mut args = Vec::new();
@@ -1038,6 +1046,17 @@ impl<'a> Gen<'a> {
                     let k = if i == 0 { k0 } else { *k };
                     let dot_fits = i == 0 && self.cfg.dot_bias && env.chain.first().map(|c| *c != Any && satisfies(*c, k)).unwrap_or(false);
                     let mut x = if dot_fits && self.tape.chance(1, 2) { Expr::dot() } else { self.expr(k, d, env) };
+                    // keys that exist: the key argument of get / put / insert_if_absent / replace_if_exists
+                    if k == Str && i == 1 && matches!(s.f, "get" | "put" | "insert_if_absent" | "replace_if_exists") && self.tape.chance(1, 2) {
+                        if let Some(Expr::Lit(t)) = args.first() {
+                            if let Ok(crate::rjson::RVal::Obj(o)) = crate::rjson::parse_one(t.as_bytes()) {
+                                if !o.is_empty() {
+                                    let key = o[self.tape.below(o.len())].0.clone();
+                                    x = Expr::Lit(json_str(&key));
+                                }
+                            }
+                        }
+                    }
                     // boundary-biased sizes: N around the size of a literal collection
                     if k == Int && i > 0 && self.tape.chance(1, 3) {
                         if let Some(Expr::Lit(t)) = args.first() {
